@@ -32,6 +32,9 @@ func checkC06(p *Prog, r *Report) {
 	ruleHdrFlow(p, r)
 	ruleBoxTbl(p, r)
 	ruleBoxPure(p, r)
+	ruleCursor(p, r)
+	ruleTopWalk(p, r)
+	r.Floor("TOPWALK", 2)
 	ruleWalkPanic(p, r)
 	r.Floor("WALKPANIC", 1)
 	r.Floor("BOXPURE", 1)
